@@ -95,9 +95,18 @@ class Ptychography(PtychographyOpt, PtychographyVisualizations, PtychographyBase
     # TODO reset RNG as well
     def reset_recon(self) -> None:
         super().reset_recon()
-        self.obj_model.reset_optimizer()
-        self.probe_model.reset_optimizer()
-        self.dset.reset_optimizer()
+        models = (self.obj_model, self.probe_model, self.dset)
+        try:
+            for model in models:
+                model.reset_optimizer()
+        except Exception:
+            # The parameters were just re-created.  If rebuilding an optimizer is rejected (a stored
+            # optimizer configuration that was never valid), no optimizer may stay bound to the
+            # discarded parameters: the object would silently stop training them until the next
+            # .to() / save() / clone() re-binds them.
+            for model in models:
+                model.reconnect_optimizer_to_parameters()
+            raise
 
     def _record_iter(self, iter_loss: float) -> None:
         self._iter_losses.append(iter_loss)
